@@ -161,7 +161,7 @@ func ZZ_C12_Faults() {
 	nf := vfConfig("FAULTS", 1)
 	fault := -1
 	for f := 0; f < nf; f++ {
-		op := vfChoose("fault", 8)
+		op := vfChoose("fault", 9)
 		i := vfChoose("block", n)
 		j := 0
 		switch op {
@@ -169,7 +169,7 @@ func ZZ_C12_Faults() {
 			j = vfChoose("other", n)
 		case 4:
 			j = []int{1, 2, 3, 4, 9, 255}[vfChoose("type", 6)]
-		case 7:
+		case 7, 8:
 			j = vfChoose("item", 3)
 		}
 		if !vfStreamOp(w, op, i, j) {
